@@ -150,6 +150,8 @@ class Comparer:
         self.raw_disagreements = 0
         self.resource_dependent = 0
         self.both_timeout = 0
+        self.s2_timeouts = 0          # stage 2 ran into the time limit where stage 1 did not (confirmed by the long retry)
+        self.aborted = False          # circuit breaker: a stage 2 that hangs on everything must not cost 7 time limits per input
         self.by_stream = {}
         self.seen = set()
         self.nontrivial = set()
@@ -168,11 +170,15 @@ class Comparer:
             if differ(a2, b2) is None:
                 return a, b, None, 'stack'
         elif d and (a[0] == -9) != (b[0] == -9):
+            if self.s2_timeouts >= 8:
+                return a, b, d, None          # already established on 8 inputs: no more long retries
             retried = True
-            a2 = run_one(self.s1, args, data, self.cwd, timeout * 6, env)
-            b2 = run_one(self.s2, args, data, self.cwd, timeout * 6, env)
+            a2 = run_one(self.s1, args, data, self.cwd, min(timeout * 6, 90), env)
+            b2 = run_one(self.s2, args, data, self.cwd, min(timeout * 6, 90), env)
             if differ(a2, b2) is None:
                 return a, b, None, 'time'
+            if b2[0] == -9 and a2[0] != -9:
+                self.s2_timeouts += 1
         return a, b, d, ('retried' if retried else None)
 
     def batch(self, stream, items, modes=MODES, timeout=10):
@@ -192,7 +198,14 @@ class Comparer:
             label, data, args, h = j
             a, b, d, note = self.compare(args, data, timeout)
             return j, a, b, d, note
-        res = vlib.parallel_map(one, jobs)
+        res = []
+        for k in range(0, len(jobs), 64):
+            if self.aborted:
+                break
+            res += vlib.parallel_map(one, jobs[k:k + 64])
+            if self.s2_timeouts >= 8 and sum(1 for r in res if r[3] and r[2][0] == -9 and r[1][0] != -9) >= 24:
+                self.aborted = True           # stage 2 does not terminate on input after input: the differences found so far are reported
+        stt['skipped_after_abort'] = stt.get('skipped_after_abort', 0) + len(jobs) - len(res)
         for (label, data, args, h), a, b, d, note in res:
             self.runs += 1
             stt['runs'] += 1
@@ -414,6 +427,31 @@ def generated_inputs(ctx, snap, own_pre):
         src, ops, checks = c16.gen_cli_unit(rng, rng.randint(2, 10), names)
         scope.append(('c16unit%d' % i, src.encode(), []))
     out.append(('gen-scope', scope))
+    # constant expressions: they run eval.c / the literal and cast code of expr.c in stage 2, i.e. the compiler's own arithmetic
+    # (shifts of negative 64-bit values, unsigned division, float <-> integer conversions at the ends of the ranges, ...)
+    consts = []
+    try:
+        import c04, c04_gen
+        for j, (src, exp) in enumerate(c04.FIXED_CLI):
+            consts.append(('c04fixed%d' % j, src.encode(), []))
+        for j, src in enumerate(c04.REJECT_CLI):
+            consts.append(('c04reject%d' % j, src.encode(), []))
+        for tg in ('x86_64-sysv', 'aarch64'):
+            gen = c04_gen.CGen(rng, c04_gen.SIGNEDCHAR[tg])
+            cs = []
+            while len(cs) < 400 * k:
+                c = gen.gen(rng.randint(1, 5))
+                if len(c[0]) < 1500:
+                    cs.append(c)
+            for j in range(0, len(cs), 20):
+                src, _ = c04.cli_unit(cs[j:j + 20], c04_gen.SIGNEDCHAR[tg])
+                consts.append(('c04unit-%s-%d' % (tg, j), src.encode(), ['-t', tg]))
+        consts.append(('consts-hand', b'long a = -16L >> 2; long b = -1L >> 63u; long c = (-0x7fffffffffffffffL - 1) >> 1UL; unsigned long long d = 1.5e19; unsigned long e = 18446744073709549568.0;\n'
+                                      b'unsigned long f = 9223372036854775808.0; double g = 18446744073709551615u; float h = 0xfffffffffffffc00; float i = 0.1f; double j = 0.1f; int k = 0.1f == 0.1;\n'
+                                      b'unsigned long l = -1UL / 3; long m = -7L / 2; long n = -7L %% 3; unsigned o = 0x80000000u >> 31; int p = -1 < 0u; long q = (char)200; unsigned long r = (unsigned long)-1 %% 10;\n'.replace(b'%%', b'%'), []))
+    except Exception as e:
+        ctx.notes.append('constant-expression stream skipped: %r' % (e,))
+    out.append(('gen-constants', consts))
     hand = []
     for nm, src in c19.HANDWRITTEN:
         hand.append(('hand:' + nm, src if isinstance(src, bytes) else src.encode(), []))
@@ -605,6 +643,8 @@ def run(ctx):
                 want = open(os.path.join(tdir, fn[:-2] + ('.pp' if pp else '.qbe')), 'rb').read()
                 return fn, outs, want
             golden_bad = []
+            if cmp_.aborted:
+                ownmode = []                  # stage 2 hangs: already reported through the corpus stream
             for fn, outs, want in vlib.parallel_map(om, ownmode):
                 cmp_.runs += 1
                 if outs[0] != outs[1]:
@@ -636,7 +676,7 @@ def run(ctx):
             env = dict(os.environ, CPROC_VERIF_TOKDUMP='1')
             td = 0
             for fn in sorted(os.listdir(tdir))[:60]:
-                if fn.endswith('.c'):
+                if fn.endswith('.c') and not cmp_.aborted:
                     a = run_one(s1, ['-E', 'test/' + fn], None, snap, 10, env)
                     b = run_one(st.exe, ['-E', 'test/' + fn], None, snap, 10, env)
                     cmp_.runs += 1
@@ -651,7 +691,7 @@ def run(ctx):
             timing['generated'] = round(time.time() - t0, 1)
 
             # ---- the driver built by both (a handful of invocations that need no backend)
-            if st.driver:
+            if st.driver and not cmp_.aborted:
                 d1 = os.path.join(snap, 'cproc')
                 dr_bad = []
                 small = os.path.join(ctx.tmp, 'drv.c')
